@@ -2,6 +2,7 @@
 package c16
 
 import (
+	"crypto/sha256"
 	"fmt"
 	"sort"
 	"sync"
@@ -12,6 +13,7 @@ import (
 
 	"verifharness/bgen"
 	"verifharness/h"
+	"verifharness/hostile"
 	ref "verifharness/ref/bech32"
 )
 
@@ -480,6 +482,9 @@ func replacementFor(t *rapid.T, orig byte, dataPart, upper bool) (byte, bool) {
 
 func genE2E(t *rapid.T) e2eCase {
 	s, hrp, _ := bgen.Valid(t, true, false)
+	if h.Pick(t, "statehrp", 15, 1) == 1 { // a prefix that leaves the checksum register at 0 (or 1)
+		s, hrp, _ = bgen.ValidStateHRP(t)
+	}
 	upper := false
 	if rapid.IntRange(0, 3).Draw(t, "up") == 0 {
 		s = bgen.Upper(s)
@@ -530,6 +535,164 @@ func TestEndToEnd(t *testing.T) {
 		Gen: genE2E, Check: checkE2E,
 		Require: []string{"weight1", "weight2", "weight3", "weight4", "weight4+prefix"},
 		Rule:    "random valid strings (prefix 1..83, whole-byte data), substitution patterns of weight 1..4 over data+checksum characters (other charset character) and prefix letters/digits (same kind), random / burst / tail shapes; Decode must reject; every case non-trivial; distinct by (string, pattern)",
+	})
+}
+
+// ---- neighbours that collide under a short hash ----
+//
+// A valid string V and a string M at distance <= 4 with the same length and the same 32-bit FNV hash
+// (FNV-1a or FNV-1), decoded right after V was accepted: an implementation that remembers accepted
+// strings by such a hash would accept M.
+
+func genHashNeighbour(t *rapid.T) e2eCase {
+	hl := rapid.IntRange(1, 12).Draw(t, "hl")
+	hrp := bgen.HRP(t, hl)
+	a := rapid.Bool().Draw(t, "fnv1a")
+	upper := rapid.IntRange(0, 3).Draw(t, "up") == 0
+	seed := rapid.Uint64().Draw(t, "seed")
+	alphabet := []byte(ref.Charset)
+	if upper {
+		alphabet = []byte(ref.AsciiUpper(ref.Charset))
+	}
+	for j := 0; j < 3000; j++ {
+		d := sha256.Sum256([]byte(fmt.Sprintf("%d/%d", seed, j)))
+		nb := 20 + int(d[31])%24
+		if (hl+7)+(nb*8+4)/5 > 90 {
+			nb = 20
+		}
+		s := ref.EncodeSymbols(hrp, ref.ToSymbols(append(d[:], d[:]...)[:nb]))
+		if upper {
+			s = ref.AsciiUpper(s)
+		}
+		m, ok := hostile.FNVNeighbour([]byte(s), hl+1, len(s), alphabet, a)
+		if !ok {
+			continue
+		}
+		c := e2eCase{S: h.S(s)}
+		var repl []byte
+		for p := range m {
+			if m[p] != s[p] {
+				c.Pos = append(c.Pos, p)
+				repl = append(repl, m[p])
+			}
+		}
+		c.Repl = h.S(repl)
+		return c
+	}
+	// (not reached in practice: one window in about 4096 succeeds and a string has some 40 windows)
+	c := genE2E(t)
+	return c
+}
+
+func TestHashNeighbours(t *testing.T) {
+	h.Run(t, h.Sub[e2eCase]{
+		Prop: "C16", Name: "hash-colliding-neighbours", N: 48,
+		Gen: genHashNeighbour,
+		Check: func(c e2eCase) (h.Info, error) {
+			info, err := checkE2E(c)
+			if err == nil {
+				m := []byte(string(c.S))
+				for i, p := range c.Pos {
+					m[p] = c.Repl[i]
+				}
+				switch {
+				case hostile.FNV32(m, true) == hostile.FNV32([]byte(string(c.S)), true):
+					info.Class = "fnv1a-collision/" + info.Class
+				case hostile.FNV32(m, false) == hostile.FNV32([]byte(string(c.S)), false):
+					info.Class = "fnv1-collision/" + info.Class
+				default:
+					info.Class = "no-collision/" + info.Class
+				}
+			}
+			return info, err
+		},
+		Rule: "valid strings V and neighbours M (up to four adjacent data characters replaced, same length) constructed by a meet-in-the-middle search so that the 32-bit FNV-1a or FNV-1 hashes of V and M are equal; Decode(V) must succeed and Decode(M), called right afterwards, must fail; all non-trivial; distinct by (V, pattern)",
+	})
+}
+
+// ---- concurrent callers sharing a human-readable part ----
+
+type concCase struct {
+	Valid []h.S   `json:"valid"` // decoded by all goroutines but the last
+	Bad   e2eCase `json:"bad"`   // its mutated string is decoded by the last goroutine
+	Iters int     `json:"iters"`
+}
+
+func checkConcurrent(c concCase) (h.Info, error) {
+	if _, err := checkE2E(c.Bad); err != nil { // validates the pattern (and the sequential verdict)
+		return h.Info{Class: "sequential"}, err
+	}
+	for _, v := range c.Valid {
+		if !ref.Decode(string(v)).OK {
+			return h.Info{}, fmt.Errorf("PRECONDITION: %q is not valid", v)
+		}
+	}
+	m := []byte(string(c.Bad.S))
+	for i, p := range c.Bad.Pos {
+		m[p] = c.Bad.Repl[i]
+	}
+	info := h.Info{Class: fmt.Sprintf("goroutines=%d/weight%d", len(c.Valid)+1, len(c.Bad.Pos)), NT: true}
+	err := h.Parallel(len(c.Valid)+1, func(g int) error {
+		for it := 0; it < c.Iters; it++ {
+			if g == len(c.Valid) {
+				if hrp, data, err := bech32.Decode(string(m)); err == nil {
+					return fmt.Errorf("while %d other goroutines decode valid strings with the same human-readable part (iteration %d): Decode accepted %q = (%q, %x), which differs from the valid string %q in %d characters (positions %v)", len(c.Valid), it, m, hrp, data, string(c.Bad.S), len(c.Bad.Pos), c.Bad.Pos)
+				}
+			} else {
+				_, _, _ = bech32.Decode(string(c.Valid[g])) // (whether valid strings are accepted is C04's question)
+			}
+		}
+		return nil
+	})
+	return info, err
+}
+
+func genConcurrent(t *rapid.T) concCase {
+	c := concCase{Iters: 400}
+	var hrp string
+	var s string
+	for {
+		s, hrp, _ = bgen.Valid(t, true, false)
+		if len(hrp) <= 40 {
+			break
+		}
+	}
+	sep := len(hrp)
+	room := (90 - sep - 7) * 5 / 8
+	// the corrupted copy differs from one of the concurrently decoded valid strings in 1..4 data characters
+	w := rapid.IntRange(1, 4).Draw(t, "w")
+	if w > len(s)-sep-1 {
+		w = len(s) - sep - 1
+	}
+	perm := rapid.Permutation(seq(sep+1, len(s))).Draw(t, "perm")
+	c.Bad = e2eCase{S: h.S(s), Pos: perm[:w]}
+	repl := make([]byte, w)
+	for i, p := range c.Bad.Pos {
+		repl[i], _ = replacementFor(t, s[p], true, false)
+	}
+	c.Bad.Repl = h.S(repl)
+	c.Valid = append(c.Valid, h.S(s))
+	for i := h.OneOf(t, "g", 1, 3, 7) - 1; i > 0; i-- {
+		nb := rapid.IntRange(0, room).Draw(t, "nb")
+		c.Valid = append(c.Valid, h.S(ref.EncodeSymbols(hrp, ref.ToSymbols(rapid.SliceOfN(rapid.Byte(), nb, nb).Draw(t, "data")))))
+	}
+	return c
+}
+
+func seq(lo, hi int) []int {
+	var out []int
+	for i := lo; i < hi; i++ {
+		out = append(out, i)
+	}
+	return out
+}
+
+func TestConcurrent(t *testing.T) {
+	h.Run(t, h.Sub[concCase]{
+		Prop: "C16", Name: "concurrent-callers", N: 150,
+		Gen: genConcurrent, Check: checkConcurrent,
+		Require: []string{"goroutines=2/weight1", "goroutines=4/weight4", "goroutines=8/weight2"},
+		Rule:    "schedules: 1..7 goroutines decode valid strings (one of them the original) while one goroutine decodes a copy with 1..4 substituted data characters, all with the same human-readable part, 400 times each, released together; the corrupted copy must be rejected every time; all non-trivial",
 	})
 }
 
